@@ -1198,7 +1198,7 @@ func (r *runner) golden(db *store.DB) {
 		dlq := d["DLQ"].(map[string]any)
 		want["pipeline/golden-pipeline"] = map[string]any{"name": rStr(cfg["Name"].(string)), "description": rStr(cfg["Description"].(string)),
 			"status": statusName(pipeline.Status(int(d["Status"].(float64)))), "error": rStr(d["Error"].(string)),
-			"dlq": fmt.Sprintf("%s/%s/%d/%d", rStr(dlq["Plugin"].(string)), rMap(smap(dlq["Settings"])), int(dlq["WindowSize"].(float64)), int(dlq["WindowNackThreshold"].(float64))),
+			"dlq":   fmt.Sprintf("%s/%s/%d/%d", rStr(dlq["Plugin"].(string)), rMap(smap(dlq["Settings"])), int(dlq["WindowSize"].(float64)), int(dlq["WindowNackThreshold"].(float64))),
 			"conns": rList(strs(d["ConnectorIDs"])), "procs": rList(strs(d["ProcessorIDs"])), "prov": provName(int(d["ProvisionedBy"].(float64))),
 			"created": ts(d["CreatedAt"]), "updated": ts(d["UpdatedAt"])}
 	}
@@ -1221,7 +1221,7 @@ func (r *runner) golden(db *store.DB) {
 			"pipeline": rStr(d["PipelineID"].(string)), "plugin": rStr(d["Plugin"].(string)), "procs": rList(strs(d["ProcessorIDs"])),
 			"state": rState(st), "prov": provName(int(d["ProvisionedBy"].(float64))), "created": ts(d["CreatedAt"]), "updated": ts(d["UpdatedAt"]),
 			"lastactive": rStr(la["Name"].(string)) + "/" + rMap(smap(la["Settings"])),
-			"type": map[float64]string{1: "source", 2: "destination"}[d["Type"].(float64)]}
+			"type":       map[float64]string{1: "source", 2: "destination"}[d["Type"].(float64)]}
 	}
 	{
 		d := docs["processor:instance:golden-processor"]
